@@ -1650,10 +1650,20 @@ impl<T: PPGEvaluatorStrategy> PPGEvaluator<T> {
                             .to_string(),
                     ));
                 }
-                JobState::Output(JobStateOutput::NotReady(vs))
-                | JobState::Ephemeral(JobStateEphemeral::NotReady(vs)) => match vs {
+                JobState::Output(JobStateOutput::NotReady(vs)) => match vs {
                     ValidationStatus::Unknown | ValidationStatus::Invalidated => return Ok(false),
                     ValidationStatus::Validated => {}
+                },
+                JobState::Ephemeral(JobStateEphemeral::NotReady(vs)) => match vs {
+                    ValidationStatus::Unknown | ValidationStatus::Invalidated => return Ok(false),
+                    ValidationStatus::Validated => {
+                        // a validated ephemeral downstream may still be required by its own
+                        // downstreams (and then needs us) - only 'No' is a decision.
+                        match Self::downstream_requirement_status(dag, jobs, downstream_idx)? {
+                            Required::No => {}
+                            Required::Unknown | Required::Yes => return Ok(false),
+                        }
+                    }
                 },
                 JobState::Output(JobStateOutput::FinishedUpstreamFailure)
                 | JobState::Ephemeral(JobStateEphemeral::FinishedUpstreamFailure)
@@ -2269,10 +2279,18 @@ impl<T: PPGEvaluatorStrategy> PPGEvaluator<T> {
                 Required::Unknown => return Ok(Required::Unknown),
                 Required::Yes => return Ok(Required::Yes),
                 Required::No => match jobs[downstream_idx].state {
-                    JobState::Output(JobStateOutput::NotReady(ValidationStatus::Validated))
-                    | JobState::Ephemeral(JobStateEphemeral::NotReady(
+                    JobState::Output(JobStateOutput::NotReady(ValidationStatus::Validated)) => {}
+                    JobState::Ephemeral(JobStateEphemeral::NotReady(
                         ValidationStatus::Validated,
-                    )) => {}
+                    )) => {
+                        // a validated ephemeral is exactly as required as its own downstreams
+                        // make it - and those may not have decided yet.
+                        match Self::downstream_requirement_status(dag, jobs, downstream_idx)? {
+                            Required::Yes => return Ok(Required::Yes),
+                            Required::Unknown => had_unknown = true,
+                            Required::No => {}
+                        }
+                    }
 
                     JobState::Output(JobStateOutput::NotReady(ValidationStatus::Invalidated)) => {
                         error!("\tRequired::Yes");
